@@ -234,6 +234,30 @@ Theorem date_literal_preserved : forall d s v r, date_inner s = Some (v, r) ->
 Proof. exact LiteralProofs.date_literal_preserved. Qed.
 Print Assumptions date_literal_preserved.
 
+(* every date, time and timestamp literal the lexer accepts: the emitted expression is, token by token,
+   sqlite:  FN ( 'text' )   elsewhere:  TYPE 'text'   -- one string token carrying exactly the literal's text
+   (sqlite: after the zone rewrite below), on every reader family; digits, - : . T Z + cannot end or extend it *)
+Theorem datetime_literal_tokens : forall d bs s l r, date_token s = Some (l, r) ->
+  exists fs fo v, datetime_fns l = Some (fs, fo, v) /\
+    (exists t, emit_literal true bs l = Some t /\ sql_lex d t = [TWord fs; TPunct 40; TString (tz_colon v); TPunct 41]) /\
+    (exists t, emit_literal false bs l = Some t /\ sql_lex d t = [TWord fo; TString v]).
+Proof. exact LiteralProofs.datetime_literal_tokens. Qed.
+Print Assumptions datetime_literal_tokens.
+
+(* translate_datetime_literal_with_sqlite_function: a trailing zone [+-]HHMM (the lexer drops the colon of +HH:MM)
+   reaches SQLite as [+-]HH:MM, the rest of the text untouched *)
+Theorem sqlite_timezone_colon : forall pre sg h1 h2 m1 m2,
+  is_digit h1 = true -> is_digit h2 = true -> is_digit m1 = true -> is_digit m2 = true -> (sg =? 43) || (sg =? 45) = true ->
+  tz_colon (pre ++ [sg; h1; h2; m1; m2]) = pre ++ [sg; h1; h2; 58; m1; m2].
+Proof. exact tz_colon_zone. Qed.
+Print Assumptions sqlite_timezone_colon.
+
+(* the function compared with every real call of translate_literal (hook verif:literal), emit_rlit, is the one the
+   theorems above are about (emit_literal) on every literal the lexer can produce *)
+Theorem translate_literal_model_agrees : forall sq bs l r, rlit_of_lit l = Some r -> emit_rlit sq bs r = emit_literal sq bs l.
+Proof. exact emit_rlit_of_lit. Qed.
+Print Assumptions translate_literal_model_agrees.
+
 (* ---------------------------------------------------------------- non-vacuity *)
 Example c08_ex_injection : sql_lex std_sql (emit_literal_string false [92; 39; 32; 79; 82; 32; 49; 61; 49; 32; 45; 45]) = [TString [92; 39; 32; 79; 82; 32; 49; 61; 49; 32; 45; 45]].
 Proof. vm_compute. reflexivity. Qed.
@@ -249,6 +273,10 @@ Example c08_ex_compatible : compatible false bs_sql [105; 116; 39; 115] = true /
 Proof. vm_compute. split; reflexivity. Qed.
 Example c08_ex_mysql_in_table : In ([109;121;115;113;108], true) wt /\ reader_of rt [109;121;115;113;108] = Some mysql_sql.
 Proof. vm_compute. split; [tauto | reflexivity]. Qed.
+Example c08_ex_timestamp : date_token [64;50;48;50;48;45;48;49;45;48;50;84;49;48;58;51;48;43;48;53;58;51;48] =
+    Some (LTimestamp [50;48;50;48;45;48;49;45;48;50;84;49;48;58;51;48;43;48;53;51;48], [])                  (* @2020-01-02T10:30+05:30 *)
+  /\ tz_colon [50;48;50;48;45;48;49;45;48;50;84;49;48;58;51;48;43;48;53;51;48] = [50;48;50;48;45;48;49;45;48;50;84;49;48;58;51;48;43;48;53;58;51;48].
+Proof. vm_compute. split; reflexivity. Qed.
 Example c08_ex_context : closed_prefix std_sql [83;69;76;69;67;84;32] = true.                       (* "SELECT " *)
 Proof. vm_compute. reflexivity. Qed.
 Example c08_ex_hex : based_numbers rows [48;120;49;102] = Some (31, []).                              (* 0x1f *)
